@@ -49,7 +49,38 @@ Proof.
   - unfold w_openat, w_openat_follow, rustix_path. rewrite Hv, Hn. apply peq_refl.
 Qed.
 
+(* The two backends as PROGRAMS, on the static kernel model (whose openat2(RESOLVE_IN_ROOT)
+   answers with the reference walk [kwalk] -- tie T2 -- and whose single-component calls and
+   procfs are tied by T2'): for the same tree, root descriptor, path, trailing mode and
+   resolver flags, Resolver::resolve on the kernel backend and on the emulated backend
+   (with or without openat2 for its procfs checks) return descriptors open on the SAME
+   object, or fail with the SAME errno -- whenever the kernel's walk stays within its 40-link
+   budget.  Premises after [wf] are properties of the tree alone (no hard links). *)
+From PV Require Static StaticProofs StaticProcfs StaticBackends.
+
+Theorem C04_backends_agree :
+  forall s rp df fz pf gh o2 ps t root path nofollow rflags,
+    wf s df -> StaticProofs.links_ok s -> StaticProofs.names_ok s -> StaticProofs.closed s ->
+    StaticProcfs.paths_found s -> StaticProcfs.paths_short s rp -> is_abs rp = true ->
+    fz <> 0%nat -> ph_mnt gh = Some Static.PROC_MNT -> ph_openat2 gh = o2 ->
+    StaticProofs.Frame s [(ph_fd gh, Static.PB s)] t -> Static.tget t root = Some ROOT -> has_nul path = false ->
+    (EMPTY_PATH_IS_ENOENT = true \/ path <> []) ->
+    let nosym := has rflags RESOLVE_NO_SYMLINKS in
+    let kern := {| rs_kernel := true; rs_flags := rflags |} in
+    let emu := {| rs_kernel := false; rs_flags := rflags |} in
+    match kwalk s path nofollow nosym with
+    | WOk o =>
+        (exists t1 fd1, Static.run s rp t (r_resolve fz true (S pf) gh ps kern root path nofollow) = Static.Done t1 (Ok fd1) /\ Static.tget t1 fd1 = Some o) /\
+        (exists t2 fd2, Static.run s rp t (r_resolve fz o2 (S pf) gh ps emu root path nofollow) = Static.Done t2 (Ok fd2) /\ Static.tget t2 fd2 = Some o)
+    | WErr n =>
+        (exists t1, Static.run s rp t (r_resolve fz true (S pf) gh ps kern root path nofollow) = Static.Done t1 (Err (OsError n))) /\
+        (exists t2, Static.run s rp t (r_resolve fz o2 (S pf) gh ps emu root path nofollow) = Static.Done t2 (Err (OsError n)))
+    | WBudget => True
+    end.
+Proof. exact StaticBackends.backends_agree. Qed.
+
 Print Assumptions C04_resolve_equiv.
 Print Assumptions C04_parent_ops_factor.
 Print Assumptions C04_open_refusals.
 Print Assumptions C04_nul_refused_by_wrappers.
+Print Assumptions C04_backends_agree.
